@@ -1,5 +1,7 @@
 import Verif.Proofs.Retarget
 import Verif.Proofs.UpdateFrame
+import Verif.Proofs.UpdateComm
+import Verif.Proofs.ReplaceKeys
 
 /-!
   `replace.UpdateRef` that re-targets a `$ref` along its own chain is a re-targeting in the sense of
@@ -70,28 +72,43 @@ theorem refStr_set (a : J) (v : String) (h : ∃ m, a = .obj m) : Doc.refStr (a.
   obtain ⟨m, rfl⟩ := h
   simp [Doc.refStr, J.set, getStr, get?, J.lookup_setKv_self]
 
+/-- what the recursion `updR` does, seen from outside: the node at the path gets the new `$ref` -/
+theorem updR_shape (r : String) (k : Kind) (j : J) (toks : List String) (j' : J)
+    (h : Proofs.UpdateComm.updR r k j toks = some j') :
+    ∃ node, Spec.Pointer.get j toks = some node ∧ setAt j toks (node.set "$ref" (.str r)) = some j' := by
+  rw [Proofs.UpdateComm.updR_spec] at h
+  cases hw : walk k j toks with
+  | none => simp [hw] at h
+  | some nk =>
+    obtain ⟨node, kind⟩ := nk
+    simp only [hw] at h
+    split at h
+    · exact ⟨node, ReplaceKeys.get_of_walk hw, h⟩
+    · cases h
+
 /-- `UpdateRef` along the `$ref`'s own chain preserves the meaning of every good position -/
-theorem updateRef_retarget_preserves (d d' : J) (key v' : String) (h : updateRef d key v' = .ok d')
+theorem updR_retarget_preserves (d d' : J) (toks : List String) (v' : String)
+    (h : Proofs.UpdateComm.updR v' .swagger d toks = some d')
     (T : List (String × Pos)) (rest : Bundle) (a1 : J)
-    (hget : Spec.Pointer.get d (keyTokens key) = some a1) (hv1 : Doc.refStr a1 ≠ "") (hv2 : v' ≠ "")
+    (hget : Spec.Pointer.get d toks = some a1) (hv1 : Doc.refStr a1 ≠ "") (hv2 : v' ≠ "")
     (q0 q' : Pos) (ht1 : T.lookup (Doc.refStr a1) = some q0) (ht2 : T.lookup v' = some q')
     (hreach : Reaches (bundleWith d T rest) q0 q')
-    (hcanon : AllCanon (keyTokens key)) (hkeys : keysCanon d = true)
-    (hgoodT : ∀ doc s q, (bundleWith d T rest).target doc s = some q → Good (keyTokens key) q)
+    (hcanon : AllCanon (toks)) (hkeys : keysCanon d = true)
+    (hgoodT : ∀ doc s q, (bundleWith d T rest).target doc s = some q → Good (toks) q)
     (hops : Nat) (had : RSetting.Adequate (bundleWith d T rest) hops) :
-    ∀ n p, Good (keyTokens key) p →
+    ∀ n p, Good (toks) p →
       unfold (bundleWith d T rest) hops n p = unfold (bundleWith d' T rest) hops n p := by
-  obtain ⟨node, hnode, hset⟩ := Proofs.UpdateFrame.updateRef_shape d key v' d' h
+  obtain ⟨node, hnode, hset⟩ := updR_shape v' .swagger d toks d' h
   rw [hget] at hnode; cases hnode
   have hobj := refStr_obj hv1
-  have hget' : Spec.Pointer.get d' (keyTokens key) = some (a1.set "$ref" (.str v')) := get_setAt_self _ _ _ _ hset
+  have hget' : Spec.Pointer.get d' (toks) = some (a1.set "$ref" (.str v')) := get_setAt_self _ _ _ _ hset
   let S : RSetting := {
     b1 := bundleWith d T rest
     b2 := bundleWith d' T rest
-    kp := ("", keyTokens key)
+    kp := ("", toks)
     q0 := q0
     q' := q'
-    Good := Good (keyTokens key)
+    Good := Good (toks)
     a1 := a1
     a2 := a1.set "$ref" (.str v')
     htarget := fun _ _ => rfl
@@ -101,7 +118,7 @@ theorem updateRef_retarget_preserves (d d' : J) (key v' : String) (h : updateRef
       · obtain ⟨pd, pp⟩ := p
         simp only at hp1; subst hp1
         rw [node_root, node_root]
-        have hgp : AllCanon pp ∧ ¬ (keyTokens key ++ ["$ref"]) <+: pp := by
+        have hgp : AllCanon pp ∧ ¬ (toks ++ ["$ref"]) <+: pp := by
           rcases hg with hg | hg
           · exact absurd rfl hg
           · exact hg
@@ -112,7 +129,7 @@ theorem updateRef_retarget_preserves (d d' : J) (key v' : String) (h : updateRef
           cases hx : Spec.Pointer.get d pp with
           | none => exact Or.inl ⟨rfl, by rw [he, hx]⟩
           | some a => exact Or.inr ⟨a, a, rfl, by rw [he, hx], rfl, shapeEq_refl a⟩
-        rcases list_cases pp (keyTokens key) with heq | ⟨s, hs, hpre⟩ | ⟨s, hs, hext⟩ | ⟨c, x, y, rx, ry, hxy, h1, h2⟩
+        rcases list_cases pp (toks) with heq | ⟨s, hs, hpre⟩ | ⟨s, hs, hext⟩ | ⟨c, x, y, rx, ry, hxy, h1, h2⟩
         · exact absurd (by rw [heq]) hne
         · -- an ancestor of the rewritten schema
           rw [hpre] at hset hget
@@ -137,7 +154,8 @@ theorem updateRef_retarget_preserves (d d' : J) (key v' : String) (h : updateRef
               exact hgp.2 ⟨r, by rw [hext]; simp⟩
             apply same
             rw [hext]
-            exact Proofs.UpdateFrame.updateRef_keeps_siblings d key v' d' h t ht r
+            rw [get_append, get_append, hget, get_setAt_self _ _ _ _ hset]
+            exact Proofs.UpdateFrame.get_set_ne a1 _ t r ht
         · -- a path that leaves the way to the rewritten schema
           apply same
           rw [h1]
@@ -163,11 +181,11 @@ theorem updateRef_retarget_preserves (d d' : J) (key v' : String) (h : updateRef
       · obtain ⟨ed, ep⟩ := e
         simp only at he1; subst he1
         rw [node_root] at hn
-        have hgp : AllCanon ep ∧ ¬ (keyTokens key ++ ["$ref"]) <+: ep := by
+        have hgp : AllCanon ep ∧ ¬ (toks ++ ["$ref"]) <+: ep := by
           rcases hg with hg | hg
           · exact absurd rfl hg
           · exact hg
-        have hchild : ∀ k, CanonTok k → Good (keyTokens key) (child ("", ep) k) := by
+        have hchild : ∀ k, CanonTok k → Good (toks) (child ("", ep) k) := by
           intro k hk
           refine Or.inr ⟨?_, ?_⟩
           · intro t ht
@@ -192,5 +210,19 @@ theorem updateRef_retarget_preserves (d d' : J) (key v' : String) (h : updateRef
         · intro _ _ key' _; exact Or.inl (by simpa [child] using he1)
         · intro _ _ i; exact Or.inl (by simpa [child] using he1) }
   exact S.retarget_preserves hops had
+
+/-- the same for `Replace.updateRef` on an analyzer key -/
+theorem updateRef_retarget_preserves (d d' : J) (key v' : String) (h : updateRef d key v' = .ok d')
+    (T : List (String × Pos)) (rest : Bundle) (a1 : J)
+    (hget : Spec.Pointer.get d (keyTokens key) = some a1) (hv1 : Doc.refStr a1 ≠ "") (hv2 : v' ≠ "")
+    (q0 q' : Pos) (ht1 : T.lookup (Doc.refStr a1) = some q0) (ht2 : T.lookup v' = some q')
+    (hreach : Reaches (bundleWith d T rest) q0 q')
+    (hcanon : AllCanon (keyTokens key)) (hkeys : keysCanon d = true)
+    (hgoodT : ∀ doc s q, (bundleWith d T rest).target doc s = some q → Good (keyTokens key) q)
+    (hops : Nat) (had : RSetting.Adequate (bundleWith d T rest) hops) :
+    ∀ n p, Good (keyTokens key) p →
+      unfold (bundleWith d T rest) hops n p = unfold (bundleWith d' T rest) hops n p :=
+  updR_retarget_preserves d d' (keyTokens key) v' ((Proofs.UpdateComm.updateRef_ok_iff d key v' d').1 h) T rest a1 hget hv1 hv2
+    q0 q' ht1 ht2 hreach hcanon hkeys hgoodT hops had
 
 end Proofs.RetargetModel
